@@ -336,6 +336,9 @@ def plan(t, ctx, depth=0, tvmap=None):
                 members.append(plan(a, ctx, depth + 1, tvmap))
         return Uni(sel, members)
     if k == "seq":
+        ei = tinfo.info(ti.args[0], tvmap)
+        if ei.kind == "dataclass" and ctx.rec.get(ei.type, 0) >= 2:
+            return Const(ti.type())  # bound: a self-referencing class is nested at most once
         ln = ctx.new("n", "int", "0 <= $ <= %d" % B.maxlen)
         return Seq(ti.type, ln, [plan(ti.args[0], ctx, depth + 1, tvmap) for _ in range(B.maxlen)])
     if k == "tuple_var":
